@@ -481,3 +481,27 @@ func init() {
 		return
 	}
 }
+
+
+// vFreeVar(f any, i int) any: the i-th captured variable of closure f (for option closures whose parameter
+// type is unexported in another package, e.g. storage.WithTTL(ttl)). Not available natively.
+func init() {
+	harnessAPI["vFreeVar"] = func(fr *frame, a []Value) Value {
+		f := a[0].(Iface)
+		i := int(fr.p.concInt(a[1].(*Term)))
+		c, ok := f.V.(*Closure)
+		if !ok || i < 0 || i >= len(c.Env) {
+			fr.p.unsupported("vFreeVar: not a closure with %d captured variables", i+1)
+		}
+		fv := c.Fn.FreeVars[i]
+		v := c.Env[i]
+		t := fv.Type()
+		// captured variables are held by reference when they are assigned after capture
+		if pv, isPtr := v.(*Value); isPtr {
+			if pt, ok := t.Underlying().(*types.Pointer); ok && pv != nil {
+				return fr.w.toIface(pt.Elem(), load(pt.Elem(), pv))
+			}
+		}
+		return fr.w.toIface(t, v)
+	}
+}
